@@ -35,6 +35,16 @@ pub enum CfgError {
     AssertionError,
 }
 
+/// The label whose occurrence comes first in the source (by position, then
+/// by name), so that the reported location does not depend on the iteration
+/// order of the set.
+fn first_label(labels: &HashSet<LabelStringToken>) -> &LabelStringToken {
+    labels
+        .iter()
+        .min_by(|a, b| a.range().cmp(&b.range()).then_with(|| a.cmp(b)))
+        .unwrap()
+}
+
 trait SetListString {
     fn as_str_list(&self) -> String;
 }
@@ -101,7 +111,7 @@ impl DiagnosticLocation for CfgError {
             CfgError::MultipleLabelsForReturn(node, _)
             | CfgError::NoLabelForReturn(node)
             | CfgError::FunctionWithoutReturn(node, _) => node.file(),
-            CfgError::LabelsNotDefined(labels) => labels.iter().next().unwrap().file(),
+            CfgError::LabelsNotDefined(labels) => first_label(labels).file(),
             CfgError::DuplicateLabel(label) | CfgError::LabelWithoutInstruction(label) => {
                 label.file()
             }
@@ -114,7 +124,7 @@ impl DiagnosticLocation for CfgError {
             CfgError::MultipleLabelsForReturn(node, _)
             | CfgError::NoLabelForReturn(node)
             | CfgError::FunctionWithoutReturn(node, _) => node.range(),
-            CfgError::LabelsNotDefined(labels) => labels.iter().next().unwrap().range(),
+            CfgError::LabelsNotDefined(labels) => first_label(labels).range(),
             CfgError::DuplicateLabel(label) | CfgError::LabelWithoutInstruction(label) => {
                 label.range()
             }
@@ -127,7 +137,7 @@ impl DiagnosticLocation for CfgError {
             CfgError::MultipleLabelsForReturn(node, _)
             | CfgError::NoLabelForReturn(node)
             | CfgError::FunctionWithoutReturn(node, _) => node.raw_text(),
-            CfgError::LabelsNotDefined(labels) => labels.iter().next().unwrap().raw_text(),
+            CfgError::LabelsNotDefined(labels) => first_label(labels).raw_text(),
             CfgError::DuplicateLabel(label) | CfgError::LabelWithoutInstruction(label) => {
                 label.raw_text()
             }
